@@ -4,7 +4,7 @@
    This file holds statements only; every proof is `exact <lemma>` or a few lines over lemmas proved elsewhere. *)
 From Coq Require Import List Arith NArith Bool Lia Permutation.
 Import ListNotations.
-Require Import S1 VParse Py VMeaning VCmp SpecModel SpecOps Order Canon SpecEq VWf VKeyEq SortUnique CanonLaws VObsModel VSortLaws VClauses.
+Require Import S1 VParse Py VMeaning VCmp SpecModel SpecOps Order Canon SpecEq VWf VKeyEq SortUnique CanonLaws VObsModel VSortLaws VClauses VNumeric VKeyEqb VDec.
 Open Scope N_scope.
 
 (* the six Python operators on two parsed strings *)
@@ -292,6 +292,27 @@ Proof.
   - inversion S1; inversion S2; subst. now apply IH.
 Qed.
 Print Assumptions C01_run_sort_one_answer.
+
+(* 18. "numerically": a plain decimal string with any number of leading zeros is accepted and read as its value, so every operator compares two of
+        them as their values compare.  (This one fails if int() - VMeaning.num - or the scanner's treatment of digits were wrong.) *)
+Theorem C01_decimal_strings_compare_by_value k n j m : exists x y,
+  Version (repeat 48 k ++ dec n) = Some x /\ Version (repeat 48 j ++ dec m) = Some y /\ forall o, vop o x y = Some (of_cmp o (n ?= m)).
+Proof.
+  exists (plain n), (plain m). split; [apply Version_decimal|]. split; [apply Version_decimal|]. intros o.
+  rewrite (C01_ops_are_pep440 _ _ _ _ (Version_decimal k n) (Version_decimal j m)). now rewrite plain_cmp.
+Qed.
+Print Assumptions C01_decimal_strings_compare_by_value.
+
+(* 19. hash in the correspondence: the `v.cmph` observation reports T exactly when the two keys are structurally equal (pv_eqb decides equality),
+        and == versions always have equal keys - so the implementation must report equal hashes wherever the model prints T *)
+Theorem C01_hash_observation a b x y : Version a = Some x -> Version b = Some y ->
+  (pv_eqb (key x) (key y) = true <-> key x = key y) /\ (vop Eq_ x y = Some true -> pv_eqb (key x) (key y) = true).
+Proof.
+  intros Ha Hb. split; [apply pv_eqb_eq|]. intros H. apply pv_eqb_eq. rewrite (C01_ops_are_pep440 a b x y Ha Hb) in H.
+  assert (E : pep440_cmp x y = Eq) by (destruct (pep440_cmp x y); cbn in H; congruence).
+  exact (key_of_equal x y (Version_wf _ _ Ha) (Version_wf _ _ Hb) E).
+Qed.
+Print Assumptions C01_hash_observation.
 
 (* non-vacuity: two accepted spellings of equal versions, and a strict chain  1.0.dev1 < 1.0a1 < 1.0 < 1.0+a < 1.0.post0 *)
 Definition nonvac_check : bool :=
